@@ -162,7 +162,7 @@ class TraceRun:
         return ph.poseidon_hash(list(xs))
 
     def cb_callstart(self, n):
-        self.calls[n] = {"ev0": len(self.w.rec.events)}
+        self.calls[n] = {"ev0": len(self.w.rec.events), "mark0": len(self.marks)}
 
     def cb_callend(self, n, ret):
         c = self.calls[n]
